@@ -98,7 +98,7 @@ func runC01(c flowCase) Verdict {
 	return classifyFlow(c, m)
 }
 
-var defaultScriptOpts = scriptOpts{maxNodes: 5, maxDepth: 4, maxBody: 5, tracking: true, router: true}
+var defaultScriptOpts = scriptOpts{maxNodes: 5, maxDepth: 4, maxBody: 5, tracking: true, router: true, shadow: true}
 
 func genFlowCase(t *rapid.T, o scriptOpts) flowCase {
 	sc := genScript(t, o)
